@@ -39,7 +39,7 @@ TrReset ==
     /\ user' = None /\ q' = NoQ /\ c' = NoQ /\ qT' = <<ZeroT, ZeroT>> /\ cT' = <<ZeroT, ZeroT>> /\ nops' = 0
     /\ sch' = NoSched /\ span' = NoSpan /\ cur' = 0 /\ hist' = <<>> /\ hdone' = TRUE
     /\ lprev' = 0 /\ live' = <<>> /\ ldone' = TRUE
-    /\ declared' = {} /\ sources' = <<>> /\ issued' = {} /\ refused' = FALSE
+    /\ declared' = {} /\ children' = <<>> /\ issued' = {} /\ refused' = FALSE
     /\ tcfg' = NoCfg
 
 (* ------------------------------------------------------------------------ *)
@@ -97,7 +97,7 @@ TrTask ==
     /\ Ln.err = ""
     /\ tcfg' = Ln.cfg
     /\ user' = Ln.cfg.user /\ sch' = SchOf(Ln.cfg)
-    /\ declared' = SeqToSet(Ln.cfg.declared) /\ sources' = Ln.cfg.sources
+    /\ declared' = SeqToSet(Ln.cfg.declared) /\ children' = << Child("ql", Ln.cfg.sources) >>
     /\ UNCHANGED <<mode, q, c, qT, cT, nops, span, cur, hist, hdone, lprev, live, ldone, issued, refused>>
 
 (* group-by / fill / sources of an issued statement are the configured ones *)
@@ -126,7 +126,7 @@ HistItemVerdict(o, lq) ==
     /\ (tcfg.gbLen > 0 => o.gb.off = lq.gbo)
 TrHistRet ==
     /\ IsEv("HistRet") /\ mode = "sched" /\ hdone /\ ldone
-    /\ Holds(IF Allowed(declared, sources)
+    /\ Holds(IF AllDeclared(declared, children)
              THEN /\ Ln.err = ""
                   /\ Len(Ln.qs) = Len(live)
                   /\ \A i \in DOMAIN live : HistItemVerdict(Ln.qs[i], live[i])
@@ -138,13 +138,14 @@ TrHistRet ==
              ELSE Ln.err # "" /\ Ln.qs = <<>>)
     /\ issued' = issued \cup UNION { SeqToSet(Ln.qs[i].srcs) : i \in DOMAIN Ln.qs }
     /\ mode' = "idle"
-    /\ UNCHANGED <<qvars, sch, span, cur, hist, hdone, lprev, live, ldone, declared, sources, refused, tcfg>>
+    /\ UNCHANGED <<qvars, sch, span, cur, hist, hdone, lprev, live, ldone, declared, children, refused, tcfg>>
 
 (* StartTask -> StartBatching -> checkDBRPs, then the real tickers run.       *)
 TrStart ==
     /\ IsEv("Start") /\ tcfg # NoCfg
-    /\ StartBatch(declared, sources)
-    /\ Holds((Ln.err # "") <=> refused')
+    /\ StartBatch(declared, children)
+    /\ Holds((Ln.err # "") <=> ~AllDeclared(declared, children))
+    /\ Holds(StrictOK((Ln.err # "") <=> refused', "Start.err"))
     /\ UNCHANGED tcfg
 (* Queries the fake InfluxDB client received until the task was stopped.      *)
 (* Wall-clock ticks: only timing-robust facts are judged.  Times inside       *)
@@ -170,9 +171,33 @@ TrStopped ==
                /\ Ln.hist[j].gboff = Ln.qs[i].gb.off)
     /\ issued' = issued \cup UNION { SeqToSet(Ln.qs[i].srcs) : i \in DOMAIN Ln.qs }
     /\ mode' = "idle"
-    /\ UNCHANGED <<qvars, svars, declared, sources, refused, tcfg>>
+    /\ UNCHANGED <<qvars, svars, declared, children, refused, tcfg>>
 
-TrNext == TrReset \/ TrNewQuery \/ TrSetTimes \/ TrClone \/ TrTask \/ TrHist \/ TrHistRet \/ TrStart \/ TrStopped \/ TrSilent
+(* A task whose batch source has several |query and |queryFlux children:        *)
+(* "Batch" = the task as written (children in script order; the property does    *)
+(* not depend on the order), "BQ" = BatchQueries over a span in which every      *)
+(* InfluxQL node ticks at least once.  Ln.issued = the FROM clause of each list   *)
+(* of InfluxQL queries returned.                                                  *)
+ChildOf(r) == Child(r.kind, r.srcs)
+TrBatch ==
+    /\ IsEv("Batch")
+    /\ Ln.err = ""
+    /\ tcfg' = [kind |-> "mixed"]
+    /\ declared' = SeqToSet(Ln.declared)
+    /\ children' = [i \in DOMAIN Ln.children |-> ChildOf(Ln.children[i])]
+    /\ UNCHANGED <<mode, qvars, svars, issued, refused>>
+QLSrcs(ch) == { ch[i].srcs : i \in { j \in DOMAIN ch : ch[j].kind = "ql" } }
+TrBQ ==
+    /\ IsEv("BQ") /\ tcfg = [kind |-> "mixed"]
+    /\ StartBatch(declared, children)
+    /\ Holds(\A i \in DOMAIN Ln.issued : SeqToSet(Ln.issued[i]) \subseteq declared)        \* OnlyDeclaredDBRPs, observed
+    /\ Holds((Ln.err # "") <=> ~AllDeclared(declared, children))                            \* RefusedIffUndeclared
+    /\ Holds(IF Ln.err = "" THEN SeqToSet(Ln.issued) = QLSrcs(children) /\ Ln.nflux = Len(children) - Len(Ln.issued)
+             ELSE Ln.issued = <<>>)
+    /\ Holds(StrictOK((Ln.err # "") <=> refused', "BQ.err"))
+    /\ UNCHANGED tcfg
+
+TrNext == TrBatch \/ TrBQ \/ TrReset \/ TrNewQuery \/ TrSetTimes \/ TrClone \/ TrTask \/ TrHist \/ TrHistRet \/ TrStart \/ TrStopped \/ TrSilent
 TrSpec == TrInit /\ [][TrNext]_tvars
 
 HW == HWMark(l)
